@@ -600,7 +600,19 @@ func (e *Engine) visitInstr(fr *frame, instr ssa.Instruction) continuation {
 		default:
 			e.unsupported(fmt.Sprintf("IndexAddr of %T", x))
 		}
-		i := e.indexCheck(e.idx64(fr.get(instr.Index), instr.Index.Type()), len(cells))
+		idx := e.idx64(fr.get(instr.Index), instr.Index.Type())
+		if !idx.IsConst() && len(cells) > 8 && len(cells) <= 256 && allTerms(cells) {
+			if lo, hi, _ := e.know.rangeOf(idx); lo != hi {
+				// symbolic index into a table of scalars: hand out a read-only snapshot cell holding the
+				// selected element as an ite-chain (stores through it are refused)
+				cell := new(value)
+				*cell = e.symIndex(idx, cells)
+				e.roCells[cell] = true
+				fr.set(instr, cell)
+				break
+			}
+		}
+		i := e.indexCheck(idx, len(cells))
 		fr.set(instr, &cells[i])
 	case *ssa.Index:
 		x := fr.get(instr.X)
@@ -650,6 +662,15 @@ func (e *Engine) visitInstr(fr *frame, instr ssa.Instruction) continuation {
 		panic(fmt.Sprintf("unexpected instruction: %T", instr))
 	}
 	return kNext
+}
+
+func allTerms(cells []value) bool {
+	for _, c := range cells {
+		if _, ok := c.(*Term); !ok {
+			return false
+		}
+	}
+	return true
 }
 
 // idx64 widens an index value to 64 bits according to its static type (sign- or zero-extension).
